@@ -184,14 +184,10 @@ fn c04_binary_decode_n6() {
     }
 }
 
-// strings built through the constructor: encoding is 2-byte big-endian length + bytes (3 symbolic bytes)
-#[kani::proof]
-#[kani::unwind(6)]
-#[kani::stub(core::str::from_utf8, utf8_model)]
-fn c02_string_new_n3() {
+// strings built through the constructor: encoding is 2-byte big-endian length + bytes (0..=3 symbolic bytes,
+// each length as its own concrete case: a symbolic length makes every allocation size symbolic)
+fn string_new_case(n: usize) {
     let b: [u8; 3] = kani::any();
-    let n: usize = kani::any();
-    kani::assume(n <= 3);
     kani::assume(utf8_ok(&b[..n]));
     let st = unsafe { core::str::from_utf8_unchecked(&b[..n]) };
     let s = MqttString::new(st).unwrap();
@@ -206,6 +202,15 @@ fn c02_string_new_n3() {
     assert!(used == 2 + n && d == s, "[C02] string decode(encode(s)) == s");
     core::mem::forget(d);
     core::mem::forget(s);
+}
+#[kani::proof]
+#[kani::unwind(6)]
+#[kani::stub(core::str::from_utf8, utf8_model)]
+fn c02_string_new_n3() {
+    string_new_case(0);
+    string_new_case(1);
+    string_new_case(2);
+    string_new_case(3);
 }
 
 // ------------------------------------------------------------------ v3.1.1 fixed-layout packets
@@ -441,7 +446,7 @@ fn c04_v311_publish_struct() {
 macro_rules! v5_ack_codec {
     ($name:ident, $ty:ident, $rcty:ident, $fh:expr) => {
         #[kani::proof]
-        #[kani::unwind(8)]
+        #[kani::unwind(2)]
         fn $name() {
             let id: u16 = kani::any();
             // shape 1: identifier only
@@ -478,7 +483,7 @@ v5_ack_codec!(c02_v5_pubcomp, GenericPubcomp, PubcompReasonCode, 0x70);
 macro_rules! v5_ack_parse_all {
     ($name:ident, $ty:ident) => {
         #[kani::proof]
-        #[kani::unwind(8)]
+        #[kani::unwind(2)]
         #[kani::stub(core::str::from_utf8, utf8_model)]
         fn $name() {
             let b: [u8; 4] = kani::any();
@@ -508,7 +513,7 @@ v5_ack_parse_all!(c04_v5_pubcomp_n4, GenericPubcomp);
 
 // v5.0 SUBACK / UNSUBACK with a non-minimal Property Length (0x80 0x00 = 0 in two bytes)
 #[kani::proof]
-#[kani::unwind(8)]
+#[kani::unwind(2)]
 #[kani::stub(core::str::from_utf8, utf8_model)]
 fn c04_v5_suback_nonminimal_proplen() {
     let id: u16 = kani::any();
@@ -575,13 +580,13 @@ fn v5_publish_shape(qos: u8) {
     core::mem::forget(p);
 }
 #[kani::proof]
-#[kani::unwind(10)]
+#[kani::unwind(2)]
 #[kani::stub(core::str::from_utf8, utf8_model)]
 fn c02_v5_publish_q0() {
     v5_publish_shape(0)
 }
 #[kani::proof]
-#[kani::unwind(10)]
+#[kani::unwind(2)]
 #[kani::stub(core::str::from_utf8, utf8_model)]
 fn c02_v5_publish_q1() {
     v5_publish_shape(1)
@@ -589,7 +594,7 @@ fn c02_v5_publish_q1() {
 
 // v5.0 PUBLISH parser on a structured symbolic body, incl. the property length byte
 #[kani::proof]
-#[kani::unwind(10)]
+#[kani::unwind(2)]
 #[kani::stub(core::str::from_utf8, utf8_model)]
 fn c04_v5_publish_struct() {
     let flags: u8 = kani::any();
@@ -630,7 +635,7 @@ fn c04_v5_publish_struct() {
 
 // v5.0 CONNACK / DISCONNECT / AUTH without properties
 #[kani::proof]
-#[kani::unwind(8)]
+#[kani::unwind(2)]
 #[kani::stub(core::str::from_utf8, utf8_model)]
 fn c02_v5_connack_disconnect_auth() {
     let sp: bool = kani::any();
@@ -665,7 +670,7 @@ fn c02_v5_connack_disconnect_auth() {
 
 // reason-code / identifier tables against the specification (numeric values, all u8)
 #[kani::proof]
-#[kani::unwind(4)]
+#[kani::unwind(2)]
 fn c03_numeric_tables() {
     let b: u8 = kani::any();
     // MQTT v5.0 2.2.2.2: property identifiers
@@ -741,7 +746,7 @@ fn ascii(x: u8) -> u8 {
 
 // v3.1.1 CONNECT: [0,4,'MQTT',4,flags,ka,ka, 0,1,c] (+ user name / password by flags = 0xC2)
 #[kani::proof]
-#[kani::unwind(20)]
+#[kani::unwind(2)]
 #[kani::stub(core::str::from_utf8, utf8_model)]
 fn c04_v311_connect_prefixes() {
     let x: [u8; 6] = kani::any();
@@ -761,7 +766,7 @@ fn c04_v311_connect_prefixes() {
 
 // v5.0 CONNECT without properties: [0,4,'MQTT',5,flags,ka,ka,0, 0,1,c]
 #[kani::proof]
-#[kani::unwind(20)]
+#[kani::unwind(2)]
 #[kani::stub(core::str::from_utf8, utf8_model)]
 fn c04_v5_connect_prefixes() {
     let x: [u8; 3] = kani::any();
@@ -774,7 +779,7 @@ fn c04_v5_connect_prefixes() {
 
 // SUBSCRIBE v3.1.1 [id, 0,1,t, opts] and v5.0 [id, 0, 0,1,t, opts]; UNSUBSCRIBE; SUBACK; UNSUBACK
 #[kani::proof]
-#[kani::unwind(12)]
+#[kani::unwind(2)]
 #[kani::stub(core::str::from_utf8, utf8_model)]
 fn c04_subscribe_family_prefixes() {
     let x: [u8; 4] = kani::any();
@@ -799,7 +804,7 @@ fn c04_subscribe_family_prefixes() {
 }
 
 #[kani::proof]
-#[kani::unwind(12)]
+#[kani::unwind(2)]
 #[kani::stub(core::str::from_utf8, utf8_model)]
 fn c04_suback_family_prefixes() {
     let x: [u8; 3] = kani::any();
@@ -825,7 +830,7 @@ fn c04_suback_family_prefixes() {
 macro_rules! v5_ack_long_props {
     ($name:ident, $ty:ident, $rcty:ident, $fh:expr, $l:expr) => {
         #[kani::proof]
-        #[kani::unwind(140)]
+        #[kani::unwind(2)]
         #[kani::stub(core::str::from_utf8, utf8_model)]
         fn $name() {
             const L: usize = $l;
